@@ -243,11 +243,14 @@ macro_rules! combine_impls {
                                                         }
                                                     }
                                                     Message::Data(data) => {
-                                                        let n_data = if vals
-                                                            .load()
-                                                            .$idx
-                                                            .is_none()
-                                                        {
+                                                        // publish the value before counting it, so that
+                                                        // whoever sees the count reach zero finds every slot set
+                                                        let prev_vals = vals.rcu(move |vals| {
+                                                            let mut vals = (**vals).clone();
+                                                            vals.$idx = Some(data.clone());
+                                                            vals
+                                                        });
+                                                        let n_data = if prev_vals.$idx.is_none() {
                                                             n_data.fetch_sub(
                                                                 1,
                                                                 AtomicOrdering::AcqRel,
@@ -257,11 +260,6 @@ macro_rules! combine_impls {
                                                                 AtomicOrdering::Acquire,
                                                             )
                                                         };
-                                                        vals.rcu(move |vals| {
-                                                            let mut vals = (**vals).clone();
-                                                            vals.$idx = Some(data.clone());
-                                                            vals
-                                                        });
                                                         if n_data == 0 {
                                                             call!(
                                                                 sink,
